@@ -28,7 +28,7 @@ Qed.
 Lemma ifold_total f args : f_ifold f args <> Panic.
 Proof.
   unfold f_ifold. destruct args as [|a0 [|a1 r]]; try discriminate.
-  destruct (existsb const_bad_int _); [discriminate|].
+  try (destruct (existsb const_bad_int _); [discriminate|]).
   destruct (atoi (a_val a0)); [apply ifold_loop_total|discriminate].
 Qed.
 
@@ -81,18 +81,14 @@ Proof. reflexivity. Qed.
 (* agreement with Model/Funcs.v f_ifold (the order before 2e0440e) *)
 Lemma ifold_ltr_agrees f args : existsb const_bad_int args = false -> f_ifold_ltr f args = f_ifold f args.
 Proof.
-  intros H. unfold f_ifold_ltr, f_ifold. destruct args as [|a0 [|a1 r]]; try reflexivity. rewrite H. reflexivity.
+  intros H. unfold f_ifold_ltr, f_ifold. destruct args as [|a0 [|a1 r]]; try reflexivity; rewrite ?H; reflexivity.
 Qed.
 Lemma const_bad_int_bad a : const_bad_int a = true -> atoi (a_val a) = None.
 Proof. unfold const_bad_int. intros H. apply andb_true_iff in H as [_ H]. destruct (atoi (a_val a)); [discriminate|reflexivity]. Qed.
 Lemma ifold_ltr_nodiv f args : f <> Divi -> f <> Modi -> f_ifold_ltr f args = f_ifold f args.
 Proof.
-  intros Hd Hm. destruct (existsb const_bad_int args) eqn:E; [|apply ifold_ltr_agrees; exact E].
-  unfold f_ifold_ltr, f_ifold. destruct args as [|a0 [|a1 r]]; try reflexivity. rewrite E.
-  apply existsb_exists in E as [x [Hin Hx]]. apply const_bad_int_bad in Hx.
-  destruct (atoi (a_val a0)) eqn:E0; [|reflexivity].
-  apply ifold_loop_bad_nodiv; try assumption.
-  destruct Hin as [->|Hin]; [congruence|]. exists x. split; assumption.
+  (* since the C11 model follows 2e0440e the two definitions coincide *)
+  intros Hd Hm. unfold f_ifold_ltr, f_ifold. destruct args as [|a0 [|a1 r]]; reflexivity.
 Qed.
 Lemma ifold_ltr_bad_operand f args : (exists a, In a args /\ atoi (a_val a) = None) ->
   f_ifold_ltr f args = Ok ErrorNum \/ f_ifold_ltr f args = Ok ErrorValue \/ f_ifold_ltr f args = Ok ErrorArgCount.
